@@ -15,7 +15,8 @@ LEVEL_TEXT = (
     "picks for those flags (with and without the COMPRESSED bit), whether the pair is an inverse pair that preserves "
     "that type, and what type reaches the wire/compressor; the compression decision is evaluated over all orderings of "
     "(len(value) vs threshold, threshold vs 0, len(compressed) vs len(value)). Library round trips (pickle, codecs, "
-    "zlib) and equality of arbitrary objects are trusted/not decided."
+    "zlib) and equality of arbitrary objects are trusted/not decided. R7: no serializer function keeps state between "
+    "calls (caching decorators, globals, module-level objects), so a deserialized value is never a shared object."
 )
 TRUSTED = ["CPython ast", "pmcsa/paths.py", "pickle.dump/load, str.encode/bytes.decode(utf8), b'%d' % int / int(bytes) are inverse pairs on their domains", "type-class tables in pmcsa/rules_C15.py"]
 
